@@ -743,6 +743,15 @@ where
                 self.set_slot(*dst, Some(l));
                 Obs::Unit
             }
+            Op::FromVecScript { dst, vals } => {
+                let l = f.new.call();
+                for m in vals {
+                    let e = E::from_m(m, &self.inner);
+                    f.push.call(l.clone(), e);
+                }
+                self.set_slot(*dst, Some(l));
+                Obs::Unit
+            }
             Op::Lit3 { dst, vals } => {
                 let mut it = vals.iter().map(|m| E::from_m(m, &self.inner));
                 let (a, b, c) = (it.next().unwrap(), it.next().unwrap(), it.next().unwrap());
